@@ -36,7 +36,7 @@ func rewriteName(s string) string {
 
 var topNames = []string{"TestA", "TestAB", "TestB", "TestA1", "TestA10", "TestA2", "Test_x", "TestÄ", "TestC2", "TestC10", "Test"}
 
-var subRaw = []string{"11", "/lead", "../rel", "a//b", "s", "s#01", "1", "10", "2", "9", "sub test", "a b", "x/y", "100%", "[x]", "a-b", "a - b", "é", "#00", "Sub", "deep", ".", "a.b", "%d", "%s", "%%"}
+var subRaw = []string{"11", "/lead", "../rel", "a//b", "s", "s#01", "1", "10", "2", "9", "sub test", "a b", "x/y", "100%", "[x]", "a-b", "a - b", "é", "#00", "Sub", "deep", ".", "a.b", "%d", "%s", "%%", "case: empty", "GET /users?id=1", "*.go", "quote\"d", "a<b>|c", "10:30", "back\\slash"}
 
 func genSubName(t *rapid.T) string {
 	if rapid.IntRange(0, 9).Draw(t, "subkind") < 8 {
@@ -171,6 +171,8 @@ var fixedLines = []string{
 	// the terminator, percent signs, the library's own marker texts
 	"tr -d \\r", "D:\\work\\r", "\\n", "\x1b[31mred\x1b[0m", "\x1b[1mbold", "10\u00a0km", "1\u202f000", "a\u200db", "\u200fרשימה", "------", "--- FAIL: TestA (0.00s)",
 	"|---|---|", "--- # second document", "100% done", "my%20report.pdf", "<Any value>", "<Type:float64>", "\"<Type:string>\"",
+	// (round 8) what version control leaves or shows: conflict markers as CONTENT (a snapshot of a merge tool's output)
+	"<<<<<<< HEAD\nours\n=======\ntheirs\n>>>>>>> feature/x", "<<<<<<< ours", "=======", ">>>>>>> theirs", "value of type map[string]interface {}",
 }
 
 func genLine(t *rapid.T, o textOpts) string {
